@@ -58,6 +58,182 @@ def known_suffix(pat, exc, text):
     return ""
 
 
+# --------------------------------------------------------------------------- the bare scheduler
+
+def _longest_path_levels(graph):
+    """independent oracle: level = longest dependency path below a task; None if cyclic
+    (iterative three-colour DFS, no recursion, no `seen`-set shortcut)"""
+    WHITE, GREY, BLACK = 0, 1, 2
+    colour = {k: WHITE for k in graph}
+    level = {}
+    for root in graph:
+        if colour[root] != WHITE:
+            continue
+        stack = [(root, iter(graph[root]))]
+        colour[root] = GREY
+        while stack:
+            node, it = stack[-1]
+            adv = False
+            for d in it:
+                if colour[d] == GREY:
+                    return None
+                if colour[d] == WHITE:
+                    colour[d] = GREY
+                    stack.append((d, iter(graph[d])))
+                    adv = True
+                    break
+            if not adv:
+                stack.pop()
+                colour[node] = BLACK
+                level[node] = 1 + max([level[d] for d in graph[node]] or [-1])
+    return level
+
+
+def _scheduler_graphs(ctx):
+    """(label, graph as list of (key, [deps in order])) — key order and dependency order are part
+    of the input: the real routine iterates both"""
+    import itertools
+    rng = random.Random(f"c10-sched:{ctx.seed}")
+    # exhaustive: the 4-task "early + late" graph and a 5-task variant, every key order, every
+    # order of the two-element dependency lists
+    for name, edges in (("reuse4", {"p": ["d", "b"], "b": ["q"], "q": ["d"], "d": []}),
+                        ("reuse5", {"p": ["d", "c"], "c": ["b"], "b": ["q"], "q": ["d"], "d": []}),
+                        ("diamond", {"p": ["y", "z"], "y": ["w"], "z": ["w"], "w": []}),
+                        ("two-long", {"p": ["d", "b", "e"], "b": ["q"], "q": ["d"], "e": ["b"], "d": []})):
+        keys = sorted(edges)
+        perms = list(itertools.permutations(keys))
+        if len(perms) > 120:
+            perms = rng.sample(perms, 120)
+        for perm in perms:
+            multi = [k for k in keys if len(edges[k]) > 1]
+            for dep_perm_choice in itertools.product(*[list(itertools.permutations(edges[k])) for k in multi]):
+                g = []
+                for k in perm:
+                    deps = list(dict(zip(multi, dep_perm_choice))[k]) if k in multi else list(edges[k])
+                    g.append((k, deps))
+                yield f"{name}", g
+    # random DAGs with shuffled key order and shuffled dependency order; some made cyclic
+    nrand = 6000 if ctx.thorough else 1500
+    for i in range(nrand):
+        n = rng.randint(1, 9)
+        order = list(range(n))
+        rng.shuffle(order)          # a hidden topological order
+        deps = {v: [] for v in order}
+        pdep = rng.choice([0.2, 0.35, 0.5])
+        for a in range(n):
+            for b in range(a):
+                if rng.random() < pdep:
+                    deps[order[a]].append(order[b])
+        kind = "dag"
+        if n >= 2 and rng.random() < 0.25:
+            # close a cycle: an edge from an earlier task to a later one that (transitively or
+            # directly) needs it, or a self loop
+            a = rng.randrange(n)
+            if rng.random() < 0.15:
+                deps[order[a]].append(order[a])
+            else:
+                b = rng.randrange(n)
+                lo, hi = min(a, b), max(a, b)
+                if lo != hi:
+                    deps[order[lo]].append(order[hi])
+            kind = "maybe-cyclic"
+        keys = list(order)
+        rng.shuffle(keys)
+        g = []
+        for k in keys:
+            d = list(dict.fromkeys(deps[k]))
+            rng.shuffle(d)
+            g.append((f"t{k}", [f"t{x}" for x in d]))
+        yield kind, g
+    # long chains from both ends (recursion depth / linear visits)
+    for n in (60, 300):
+        chain = [(f"c{i}", [f"c{i - 1}"] if i else []) for i in range(n)]
+        yield "chain-forward", chain
+        yield "chain-backward", chain[::-1]
+
+
+def scheduler_batch(ctx):
+    """the real `_calculate_dependency_levels` / `_schedule_task_batches_counted` against an
+    independent longest-path computation and the Lean batch model, on graphs whose key order
+    and dependency order are shuffled"""
+    from orderedsets import FrozenOrderedSet
+    from pytools.graph import CycleError
+    from pytato.distributed.partition import _calculate_dependency_levels, _schedule_task_batches_counted
+    cases = []
+    for label, g in _scheduler_graphs(ctx):
+        cases.append((label, g))
+    queries = []
+    for label, g in cases:
+        names = {k: i for i, (k, _) in enumerate(sorted(g))}
+        sends = " ".join(f"(0 0 {names[k]} ({' '.join(f'(0 {names[d]})' for d in deps)}))" for k, deps in g)
+        queries.append(f"(dist batches (({sends}) ()))")
+    answers = common.driver_query_parallel(queries)
+    kinds = collections.Counter()
+    n_dis = n_cyclic = 0
+    for (label, g), a in zip(cases, answers):
+        kinds[label] += 1
+        graph = {k: FrozenOrderedSet(deps) for k, deps in g}
+        want = _longest_path_levels({k: deps for k, deps in g})
+        n_cyclic += want is None
+        # Lean: nodes placed by peeling, in batches
+        names = sorted(k for k, _ in g)
+        toks = a[3:].replace("(", " ( ").replace(")", " ) ").split()
+        depth = 0
+        model_level = {}
+        bidx = -1
+        nums = []
+        for tk in toks:
+            if tk == "(":
+                depth += 1
+                if depth == 2:
+                    bidx += 1
+                if depth == 3:
+                    nums = []
+            elif tk == ")":
+                if depth == 3 and len(nums) == 3:
+                    model_level[names[nums[2]]] = bidx
+                depth -= 1
+            elif depth == 3:
+                nums.append(int(tk))
+        model_cyclic = len(model_level) < len(g)
+        replay = {"graph": g, "label": label}
+        if model_cyclic != (want is None) or (want is not None and model_level != want):
+            ctx.broken.append(f"correspondence:lean-batches-vs-longest-path:{label}")
+            n_dis += 1
+            continue
+        bad = None
+        try:
+            levels, visited = _calculate_dependency_levels(graph)
+            if want is None:
+                bad = ("scheduler:missed-cycle", "a cyclic task graph gets dependency levels")
+            elif dict(levels) != want:
+                bad = ("scheduler:levels-differ", f"levels {dict(levels)} != longest-path depth {want}")
+            elif visited != len(g):
+                bad = ("scheduler:visit-count", f"{visited} visits for {len(g)} tasks")
+            else:
+                batches, count = _schedule_task_batches_counted(graph)
+                got = {t: i for i, b in enumerate(batches) for t in b}
+                if got != want or sum(len(b) for b in batches) != len(g):
+                    bad = ("scheduler:batches-differ", f"batches {[sorted(b) for b in batches]}")
+                elif count > 2 * len(g):
+                    bad = ("scheduler:visit-count", f"{count} visits+tasks for {len(g)} tasks")
+        except CycleError:
+            if want is not None:
+                bad = ("scheduler:false-cycle", "CycleError for an acyclic task graph")
+        except Exception as e:      # noqa: BLE001
+            bad = (f"scheduler:exception:{type(e).__name__}", f"{type(e).__name__}: {str(e)[:100]}")
+        if bad:
+            n_dis += 1
+            ctx.violation(bad[0], f"_calculate_dependency_levels on {label} graph "
+                          f"{[(k, d) for k, d in g][:8]}{'…' if len(g) > 8 else ''}: {bad[1]}", replay)
+    ctx.note_batch("scheduler-vs-longest-path-and-lean-batches", len(cases), n_dis, exhaustive=False,
+                   nontrivial=sum(1 for _, g in cases if len(g) > 1), cyclic_graphs=n_cyclic,
+                   graph_kinds=dict(sorted(kinds.items())),
+                   how="real _calculate_dependency_levels / _schedule_task_batches_counted on task graphs with "
+                       "shuffled key order and shuffled dependency order: levels == longest-path depth == Lean "
+                       "peeling batches, CycleError iff cyclic, each task visited once")
+
+
 def run(ctx: common.Ctx):
     ctx.assumptions += [
         "a rank left waiting in a collective for a rank that raised is recorded as 'blocked' (real MPI would "
@@ -66,6 +242,8 @@ def run(ctx: common.Ctx):
         "an undelivered message at the end of a run counts as a hang (rendezvous sends never complete)",
     ]
     ctx.lean_obligations("PtProofs.C10", THEOREMS)
+    common.setup_repo_import()
+    scheduler_batch(ctx)
     nprog = 2000 if ctx.thorough else 140
     npairs = 15000 if ctx.thorough else 200
     rng = random.Random(f"c10:{ctx.seed}")
@@ -74,13 +252,21 @@ def run(ctx: common.Ctx):
     for i in range(nprog):
         prof = "small" if i % 2 == 0 else "default"
         base_tasks.append({"seed": ctx.seed, "index": i, "profile": prof, "faults": []})
+    # hand-built family: multi-round exchanges whose last message combines an early and a late
+    # receive ("diamond with a long and a short path"), all operand / output orders
+    n_family = 0
+    for spec in G.reuse_family():
+        base_tasks.append({"seed": 0, "index": spec["index"], "profile": "reuse", "faults": [],
+                           "spec": spec, "nofault": True})
+        n_family += 1
     try:
         base_results = distwork.run_pool(distwork.c10_unit, base_tasks, deadline_s=600)
     except distwork.WorkTimeout as e:
         raise common.LeanError(f"C10 work pool timed out: {e}")
     accepted = [t for t, r in zip(base_tasks, base_results)
-                if not r.get("timeout") and all(x["status"] == "ok" for x in r["ranks"])]
-    ctx.coverage["base_programs"] = {"generated": nprog, "accepted_and_faulted": len(accepted)}
+                if not t.get("nofault") and not r.get("timeout") and all(x["status"] == "ok" for x in r["ranks"])]
+    ctx.coverage["base_programs"] = {"generated": nprog, "accepted_and_faulted": len(accepted),
+                                     "reuse_family_programs": n_family}
     # phase 2: every single fault at every communication operation of the accepted programs
     tasks = []
     for base in accepted:
@@ -271,6 +457,20 @@ def run(ctx: common.Ctx):
 def replay(ctx, path):
     r = json.loads(open(path).read())
     print(json.dumps({k: r.get(k) for k in ("signature", "what", "program", "choices", "model")}, indent=1))
+    if "graph" in r:
+        common.setup_repo_import()
+        from orderedsets import FrozenOrderedSet
+        from pytato.distributed.partition import _calculate_dependency_levels
+        g = [(k, list(d)) for k, d in r["graph"]]
+        want = _longest_path_levels({k: d for k, d in g})
+        try:
+            got = dict(_calculate_dependency_levels({k: FrozenOrderedSet(d) for k, d in g})[0])
+        except Exception as e:      # noqa: BLE001
+            got = f"{type(e).__name__}"
+        print("longest-path levels (None = cyclic):", want, "\nreal:", got)
+        bad = (got != want) and not (want is None and got == "CycleError")
+        print("REPRODUCED" if bad else "not reproduced on the current tree")
+        return 1 if bad else 0
     if "spec" not in r:
         run(ctx)
         return ctx.finish()
